@@ -215,7 +215,8 @@ def cases(pid, obs):
                     out.append("30 %d 1 %d %d" % (code[q["what"]], 1 if r["from"] == q["dst"] else 0, 1 if r["id"] == q["qid"] else 0))
     if pid == "C08" and "dns" in obs:
         # kind 21: client class for dns (1 = granted recursion, 0 = not), got reply, rcode
-        klass = {"forward-v4only": 1, "acl-dns-only-client": 1, "acl-no-permission-client": 0}
+        klass = {"forward-v4only": 1, "acl-dns-only-client": 1, "acl-no-permission-client": 0,
+                 "acl-no-permission-client-rd0-forged-name": 0, "acl-no-permission-client-rd0": 0}
         for q in obs["dns"].get("queries", []):
             if q["what"] in klass:
                 r = q["reply"]
